@@ -487,9 +487,10 @@ def check_property(prop, tier, seed):
             # (helpers that cannot fail - a conversion, a struct literal - legitimately have none; a function
             #  that claims the property must have something to prove)
             vac_problems.append('%s: zero obligations generated' % short_fn(g['func']))
-        missing = [n for n in lock.get(short_fn(g['func']), []) if n not in names]
+        keys_ = set(k_ for k_ in (clause_key(ob) for ob in g['obs']) if k_)
+        missing = [n for n in lock.get(short_fn(g['func']), []) if n not in keys_]
         for n in missing:
-            vac_problems.append('%s: obligation %s recorded in obligations.lock is no longer generated' % (short_fn(g['func']), n))
+            vac_problems.append('%s: contract clause %s recorded in obligations.lock no longer produces any obligation' % (short_fn(g['func']), n))
         trusted |= set(g['trusted'])
         notes |= set(g['notes'])
         fun_report.append({'function': short_fn(g['func']), 'obligations': fo, 'discharged': fd, 'gen_s': round(g['gen_s'], 2)})
@@ -610,6 +611,23 @@ def replay_file(path):
     return check_property(rec['property'], 'quick', 0)
 
 
+CLAUSE_KINDS = ('post', 'inv', 'dec', 'effect', 'assert', 'lemma', 'wf')
+
+
+def clause_key(ob):
+    """the contract clause an obligation comes from, without return / path / occurrence numbers:
+    post.1@ret3#0 -> post.1, inv.loop2.0:preserved#1 -> inv.loop2.0:preserved.  The lock records these keys for
+    contract clauses only: panic-freedom obligations come and go with harmless edits of the code (a removed
+    statement, a merged return) and must not raise an alarm; a clause that stops producing any obligation means
+    that the contract no longer binds to the code."""
+    if ob.kind not in CLAUSE_KINDS:
+        return None
+    n = ob.name.split('/', 1)[1] if '/' in ob.name else ob.name
+    n = n.split('#')[0]
+    n = re.sub(r'@ret\d+$', '', n)
+    return n
+
+
 def write_lock(props):
     lp = os.path.join(VERIF, 'obligations.lock.json')
     lock = json.load(open(lp)) if os.path.exists(lp) else {}
@@ -621,10 +639,10 @@ def write_lock(props):
             if g.get('error'):
                 print('lock: %s: %s' % (f, g['error']))
                 continue
-            d[short_fn(f)] = sorted(ob.name for ob in g['obs'] if ob.kind != 'canary')
+            d[short_fn(f)] = sorted(set(k_ for k_ in (clause_key(ob) for ob in g['obs']) if k_))
         lock[prop] = d
         shutil.rmtree(ses.workdir, ignore_errors=True)
-        print('locked %s: %d functions, %d obligations' % (prop, len(d), sum(len(v) for v in d.values())))
+        print("locked %s: %d functions, %d contract clauses" % (prop, len(d), sum(len(v) for v in d.values())))
     json.dump(lock, open(lp, 'w'), indent=0, sort_keys=True)
     return 0
 
